@@ -317,6 +317,33 @@ pub fn gen_c05(r: &mut Rng, tier: &str) -> Vec<Case> {
             let cls = format!("null-partition-key-{}{}", match kind { Kind::Str => "str", Kind::Int => "int", Kind::Float => "float" }, if omit { "-absent" } else { "" });
             cases.push(Case { class: format!("{}:hole{}of{}", cls, hole, nb), input: case_sx(&t2, &l2, &qs) });
         }
+        // top-n whose LIMIT + OFFSET exceeds the streaming batch size (but stays below half a partition):
+        // the heap has to keep growing after the first batch
+        if ti % 2 == 0 {
+            let n = 60 + r.below(60) as usize;
+            let t3 = Table {
+                cols: vec![
+                    id_col(n),
+                    small_int_col(r, "k", n, -20, 1000),
+                    crate::val::Col { name: "f".into(), kind: Kind::Float, omit_when_null: false, cells: (0..n).map(|_| V::f(r.range(-4000, 4000) as f64 / 8.0)).collect() },
+                ],
+            };
+            let mut l3 = Layout::single(n);
+            l3.flush = vec![r.chance(1, 2)];
+            l3.bsize = 8;
+            l3.threads = *r.pick(&[1usize, 2]);
+            let mut qs = vec![];
+            for _ in 0..2 {
+                let key = *r.pick(&[1usize, 2, 0]);
+                let mut q = Query::select(vec![Sel::Plain(Expr::Col(ID)), Sel::Plain(Expr::Col(key))]);
+                q.order.push((OKey::Expr(Expr::Col(key)), r.chance(1, 2)));
+                let total = 9 + r.below((n / 2 - 10) as u64); // 8 < LIMIT + OFFSET < n / 2
+                q.offset = if r.chance(1, 2) { r.below(total) } else { 0 };
+                q.limit = Some(total - q.offset);
+                qs.push(q);
+            }
+            cases.push(Case { class: "topn-beyond-batch".into(), input: case_sx(&t3, &l3, &qs) });
+        }
     }
     cases
 }
